@@ -1439,7 +1439,7 @@ fn cover_scale(profile: &str, p: &Pools, rng: &mut Rng, out: &mut Vec<String>, p
     const MID: &[i64] = &[4, 5, 6, 7, 8, 9];
     let fns: &[(&str, &[&[i64]])] = match profile {
         "C01" => &[("m4_transform_point", &[NEAR, MID, &[10, 11, 12]]), ("m4_det", &[NEAR, MID, &[10]]), ("m3_det", &[NEAR, MID, &[10]])],
-        "C02" => &[("m4_invert", &[NEAR, MID, &[10]]), ("m4_inverse_transform", &[NEAR, MID, &[10]]), ("m3_invert", &[NEAR, MID, &[10]]), ("m2_invert", &[NEAR, MID, &[10]])],
+        "C02" => &[("m4_inv_resid", &[NEAR, MID, &[10]]), ("m3_inv_resid", &[NEAR, MID, &[10]]), ("m2_inv_resid", &[NEAR, MID, &[10]]), ("m4_invert", &[NEAR, MID, &[10]]), ("m4_inverse_transform", &[NEAR, MID, &[10]]), ("m3_invert", &[NEAR, MID, &[10]]), ("m2_invert", &[NEAR, MID, &[10]])],
         "C03" => &[("v3_cross", &[NEAR, MID, &[10, 11, 12]]), ("v3_dot", &[NEAR, MID, &[10, 11, 12]]), ("v2_perp_dot", &[NEAR, MID, &[10, 11, 12]]),
                    ("v3_cross_both", &[NEAR, MID, &[10, 11, 12]]), ("v3_dot_both", &[NEAR, MID, &[10, 11, 12]]), ("v2_perp_dot_both", &[NEAR, MID, &[10, 11, 12]])],
         "C04" => &[("q_invert", &[NEAR, MID, &[10]]), ("q_normalize", &[NEAR, MID])],
@@ -1455,14 +1455,14 @@ fn cover_scale(profile: &str, p: &Pools, rng: &mut Rng, out: &mut Vec<String>, p
     for (fname, groups) in fns {
         for g in groups.iter() { for &kc in g.iter() { for _rep in 0..2 {
             let args: Vec<V> = match *fname {
-                "m4_invert" | "m4_inverse_transform" | "m4_det" => {
+                "m4_invert" | "m4_inverse_transform" | "m4_det" | "m4_inv_resid" => {
                     // dense, not affine
                     let c = |rng: &mut Rng| Vector4::new(small(rng), small(rng), small(rng), small(rng));
                     let m = loop { let m = Matrix4::from_cols(c(rng), c(rng), c(rng), c(rng)); if m.determinant().n != 0 { break m; } };
                     vec![Val::M4(m)]
                 }
-                "m3_invert" | "m3_det" => vec![Val::M3(loop { let m = Matrix3::from_cols(rv3(rng), rv3(rng), rv3(rng)); if m.determinant().n != 0 { break m; } })],
-                "m2_invert" => vec![Val::M2(loop { let m = Matrix2::from_cols(rv2(rng), rv2(rng)); if m.determinant().n != 0 { break m; } })],
+                "m3_invert" | "m3_det" | "m3_inv_resid" => vec![Val::M3(loop { let m = Matrix3::from_cols(rv3(rng), rv3(rng), rv3(rng)); if m.determinant().n != 0 { break m; } })],
+                "m2_invert" | "m2_inv_resid" => vec![Val::M2(loop { let m = Matrix2::from_cols(rv2(rng), rv2(rng)); if m.determinant().n != 0 { break m; } })],
                 "m4_transform_point" => {
                     // a projective matrix and a point whose image has w != 0
                     let c = |rng: &mut Rng| Vector4::new(small(rng), small(rng), small(rng), small(rng));
@@ -1545,6 +1545,13 @@ fn cover_proj(profile: &str, p: &Pools, rng: &mut Rng, out: &mut Vec<String>, pi
             }
         }
         "C08" => {
+            for kind in ["DecQ", "Dec3", "DecQ_mul", "Matrix4", "Mat_of_concat"] {
+                for (e1, e2, f1, f2) in [(0i64, 0i64, 0i64, 0i64), (-5, 0, 0, 0), (0, -5, 6, 0), (5, -5, 0, 6), (-5, 5, 6, -6), (3, 3, -6, 6), (-3, -2, 6, 6)] {
+                    let nz3 = |rng: &mut Rng| Vector3::new(small_nz(rng), small_nz(rng), small_nz(rng));
+                    emit1s("dec_concat_proj", vec![t(kind), Val::Q(uq(p, rng)), Val::Q(uq(p, rng)), Val::V3(nz3(rng)), Val::V3(nz3(rng)), Val::V3(nz3(rng)),
+                                                  Val::I(e1), Val::I(e2), Val::I(f1), Val::I(f2)], F2, out, pid);
+                }
+            }
             for kind in ["Matrix4", "Matrix4_invert", "Matrix3", "Matrix3_invert", "DecQ", "Dec3", "DecQ_vector"] {
                 let mut scales = vec![q(3, 1_000_000), q(-5, 2_000_000), q(1, 100_000), q(-1, 10_000), q(1, 250)];
                 if kind.starts_with("Matrix") { scales.push(q(1, 10_000_000)); scales.push(q(-1, 100_000_000)); }
@@ -1555,6 +1562,9 @@ fn cover_proj(profile: &str, p: &Pools, rng: &mut Rng, out: &mut Vec<String>, pi
             }
         }
         "C10" => {
+            for ctor in ["perspective", "perspective_deg", "perspective_fov"] { for fc in 0..6 { for (n, fa) in [(q(1, 2), q(10, 1)), (q(1, 100), q(1000, 1))] {
+                emit1("fov_proj", vec![t(ctor), Val::I(fc), vs(n), vs(fa)], out, pid);
+            } } }
             for ctor in ["perspective", "perspective_fov", "frustum", "perspective_struct", "ortho", "planar"] {
                 for n in [q(1, 1000), q(1, 2), q(1, 1), q(10, 1)] { for rc in 0..4 {
                     emit1s("deep_proj", vec![t(ctor), vs(n), Val::I(rc)], F2, out, pid);
